@@ -77,6 +77,15 @@ type writePath struct {
 }
 
 func srcBucket(c *caseData) storage.ReadBucket {
+	if c.srcDir != "" && !c.wp.cli {
+		// the source is a directory on disk: walking it is storageos' business, and what the walk
+		// callback returns (a failed write!) passes through storageos' own error handling
+		b, err := storageos.NewProvider().NewReadWriteBucket(c.srcDir)
+		if err != nil {
+			panic(err)
+		}
+		return b
+	}
 	b, err := storagemem.NewReadBucket(c.files)
 	if err != nil {
 		panic(err)
@@ -242,20 +251,11 @@ func init() {
 			return bufconfig.PutBufGenYAMLFileForPrefix(ctx, d.bucket, ".", f)
 		}},
 		&writePath{name: "buf export", osOnly: true, cli: true, run: func(ctx context.Context, c *caseData, d *dest) error {
-			// the real command: reads the workspace from disk, builds the image, writes every file of it
-			// that the workspace (not the built-in copy) supplies into the output directory
-			// (the first scheduling point makes this task the one that "runs now" for the raw hooks)
-			if dec := c.sim.Yield(ctx, "start", "cli", sched.NoFault()); dec.Dead {
-				return sched.ErrCrashed
-			}
-			var stdout, stderr bytes.Buffer
-			env := map[string]string{"HOME": filepath.Join(c.srcDir, "..", "home"), "BUF_CACHE_DIR": filepath.Join(c.srcDir, "..", "cache"), "PATH": ""}
-			container := app.NewContainer(env, strings.NewReader(""), &stdout, &stderr, "buf", "export", c.srcDir, "-o", d.dir)
-			err := appcmd.Run(ctx, container, bufcli.NewRootCommand("buf"))
-			if err == nil && stderr.Len() > 0 && strings.Contains(stderr.String(), "Failure") {
-				return fmt.Errorf("stderr: %s", stderr.String())
-			}
-			return err
+			return runExport(ctx, c, d)
+		}},
+		&writePath{name: "buf export --exclude-imports", osOnly: true, cli: true, run: func(ctx context.Context, c *caseData, d *dest) error {
+			// another loop inside the command: the files are written from within the walk of the workspace directory
+			return runExport(ctx, c, d, "--exclude-imports")
 		}},
 		&writePath{name: "PluginResponseWriter(zip)", osOnly: true, rawDst: true, run: func(ctx context.Context, c *caseData, d *dest) error {
 			return writePluginArchive(ctx, c, d, "gen.zip")
@@ -304,6 +304,24 @@ func writePluginArchive(ctx context.Context, c *caseData, d *dest, name string) 
 		return err
 	}
 	return w.Close()
+}
+
+// runExport runs the real `buf export` command in-process: it reads the workspace from disk, builds
+// the image (unless imports are excluded) and writes the files into the output directory.
+func runExport(ctx context.Context, c *caseData, d *dest, extra ...string) error {
+	// (the first scheduling point makes this task the one that "runs now" for the raw hooks)
+	if dec := c.sim.Yield(ctx, "start", "cli", sched.NoFault()); dec.Dead {
+		return sched.ErrCrashed
+	}
+	var stdout, stderr bytes.Buffer
+	env := map[string]string{"HOME": filepath.Join(c.srcDir, "..", "home"), "BUF_CACHE_DIR": filepath.Join(c.srcDir, "..", "cache"), "PATH": ""}
+	args := append([]string{"buf", "export", c.srcDir, "-o", d.dir}, extra...)
+	container := app.NewContainer(env, strings.NewReader(""), &stdout, &stderr, args...)
+	err := appcmd.Run(ctx, container, bufcli.NewRootCommand("buf"))
+	if err == nil && stderr.Len() > 0 && strings.Contains(stderr.String(), "Failure") {
+		return fmt.Errorf("stderr: %s", stderr.String())
+	}
+	return err
 }
 
 func wktContent(path string) string {
@@ -620,6 +638,19 @@ func Run(tp *tape.Tape, env *engine.Env) *engine.Outcome {
 	}
 	if c.wp.osOnly {
 		c.dstKind = "os"
+	}
+	if !c.wp.cli && !c.wp.modules && tp.Draw("srcdisk", 3) == 2 {
+		c.srcDir = filepath.Join(env.Scratch, "srcdisk")
+		for p, content := range c.files {
+			full := filepath.Join(c.srcDir, filepath.FromSlash(p))
+			if err := os.MkdirAll(filepath.Dir(full), 0o755); err != nil {
+				panic(err)
+			}
+			if err := os.WriteFile(full, content, 0o644); err != nil {
+				panic(err)
+			}
+		}
+		defer os.RemoveAll(c.srcDir)
 	}
 	if c.wp.cli {
 		c.atomic = false
